@@ -381,7 +381,10 @@ def write_bag_trajectory(writer, traj: PoseTrajectory3D, topic_name: str,
     for stamp, xyz, quat in zip(traj.timestamps, traj.positions_xyz,
                                 traj.orientations_quat_wxyz):
         sec = int(stamp // 1)
-        nanosec = int((stamp - sec) * 1e9)
+        # Round to the nearest nanosecond, truncating can lose more than 1 ns.
+        nanosec = int(round((stamp - sec) * 1e9))
+        if nanosec >= 1000000000:
+            sec, nanosec = sec + 1, nanosec - 1000000000
         time = Time(sec, nanosec)
         if isinstance(writer, Rosbag1Writer):
             header = Header(seq, time, frame_id)
